@@ -28,7 +28,7 @@ ASSUMPTIONS = [
 ]
 COMPONENTS = {"real": ["pyxel.inputs.load_image / load_table", "pyxel.util.fit_into_array / load_cropped_and_aligned_image", "load_image and load_charge models inside run_mode", "real scratch filesystem (fsspec local)"], "stub": []}
 BUDGET = {"quick": {"n": 800, "wall": 100, "determinism": 4}, "thorough": {"n": 400000, "wall": 1500, "determinism": 12}}
-REQUIRED_REACH = ["home_relative_paths", "header_loaded", "relative_to_working_directory", "second_working_directory", "op:write", "op:load_image", "op:load_table", "op:run", "rewrite_then_run", "rewrite_same_mtime_size", "fmt:npy", "fmt:fits", "fmt:txt", "delim:tab", "delim:space", "delim:comma", "delim:bar", "delim:semicolon", "place:offset", "place:align", "no_overlap_rejected", "input_larger", "input_smaller", "model:load_image", "model:load_charge"]
+REQUIRED_REACH = ["home_relative_paths", "header_loaded", "relative_to_working_directory", "second_working_directory", "op:write", "fits_image_in_first_extension", "op:load_image", "op:load_table", "op:run", "rewrite_then_run", "rewrite_same_mtime_size", "fmt:npy", "fmt:fits", "fmt:txt", "delim:tab", "delim:space", "delim:comma", "delim:bar", "delim:semicolon", "place:offset", "place:align", "no_overlap_rejected", "input_larger", "input_smaller", "model:load_image", "model:load_charge"]
 
 DELIMS = {"tab": "\t", "space": " ", "comma": ",", "bar": "|", "semicolon": ";"}
 ALIGNS = ["center", "top_left", "top_right", "bottom_left", "bottom_right"]
@@ -114,6 +114,11 @@ def make_array(w):
     return base
 
 
+def fits_in_extension(w) -> bool:
+    """decided by the version number of the file, so a rewrite may change the layout of the same path"""
+    return w["fmt"] == "fits" and int(w["salt"]) % 3 == 0
+
+
 def write_file(path, w, arr):
     if w["fmt"] == "npy":
         np.save(path, arr)
@@ -122,7 +127,11 @@ def write_file(path, w, arr):
 
         hdr = fits.Header()
         hdr["PYXVER"] = int(w["salt"])  # a keyword that identifies this version of the file
-        fits.writeto(path, arr, header=hdr, overwrite=True)
+        if fits_in_extension(w):
+            # the usual multi-extension product layout: an empty primary HDU, the image in the first extension
+            fits.HDUList([fits.PrimaryHDU(header=hdr), fits.ImageHDU(arr, header=hdr)]).writeto(path, overwrite=True)
+        else:
+            fits.writeto(path, arr, header=hdr, overwrite=True)
     else:
         np.savetxt(path, arr, delimiter=DELIMS[w["delim"]], fmt="%.17g")
 
@@ -220,6 +229,8 @@ def _execute(scn):
             if op["op"] == "write":
                 arr = make_array(op)
                 stats["fmt:" + op["fmt"]] = 1
+                if fits_in_extension(op):
+                    stats["fits_image_in_first_extension"] = 1
                 if op["delim"]:
                     stats["delim:" + op["delim"]] = 1
                 st = os.stat(path) if os.path.exists(path) else None
